@@ -32,6 +32,11 @@ func runC05(p *eng.Prog, r *eng.Report, tier string) {
 	closerFresh(c, "C05.2")
 	attrCopyLoopsComplete(c, "C05.11")
 	flusherNotHidden(c, "C05.12")
+	// C05.13 the type attribute a stanza value is sent with is the value's type: the
+	// text marshalers of the stanza type enumerations handle every constant
+	closedBitBeforeWrites(c, "C05.14")
+	nEnum := enumExhaustive(c, "C05.13", []string{"stanza"})
+	c.r.Floor("C05.13", "enumeration methods in package stanza", nEnum, 2)
 	c05Send(c)
 	c05Marshal(c)
 	c05MarshalAdapters(c)
